@@ -73,10 +73,11 @@ RNN = ("simplernn", "lstm", "gru")
 DEFAULT_FMT = "channels_last"
 FMTS0 = (DEFAULT_FMT, DEFAULT_FMT)
 # classes with a `data_format` constructor argument and its DEFAULT in the QUANTIZED class (the harness' model of
-# the constructor signatures): QConv1D and QConv2D have the literal "channels_last", every other one None =
-# `K.image_data_format()` at construction time.  The stock classes: Conv1D "channels_last", all others None —
-# QConv2D differs (recorded finding C11-qconv2d-default-data-format).
-HAS_DF = {"conv1d": "channels_last", "conv2d": "channels_last", "sepconv1d": None, "sepconv2d": None, "dwconv2d": None,
+# the constructor signatures): QConv1D has the literal "channels_last" (as the stock Conv1D), every other one None =
+# `K.image_data_format()` at construction time — the same as the stock classes (QConv2D declared the literal
+# "channels_last" until /repo 22ba660, finding C11-qconv2d-default-data-format; a class whose default differs from
+# its stock class again fails clause `ctor_default`, un-mirrored).
+HAS_DF = {"conv1d": "channels_last", "conv2d": None, "sepconv1d": None, "sepconv2d": None, "dwconv2d": None,
           "avgpool2d": None, "globalavgpool2d": None}
 
 
@@ -555,7 +556,8 @@ def gen_new(rng, tier):
                    data_format=df)
         geo.update(dict(groups=1) if cls == "conv1d" else dict(depth_multiplier=1 + i % 2))
         add(cls, geo, qsel(rng, SLOTS[cls], i, force_none=(i % 7 == 6)), [dict(length=ln, batch=b)], "rank")
-  # grouped causal channels_first: the channel-axis pad of K.conv1d can give a legal (wrong) grouped convolution
+  # grouped causal channels_first: before /repo 035b3d2 the channel-axis pad of K.conv1d gave a legal (wrong)
+  # grouped convolution here instead of an error
   for (f_, k_, d_, cin_) in ((6, 2, 2, 4), (3, 3, 2, 2)):
     i += 1
     add("conv1d", dict(filters=f_, kernel=k_, strides=1, padding="causal", dilation=d_, use_bias=(i % 2 == 0), cin=cin_,
@@ -594,6 +596,24 @@ def gen_new(rng, tier):
       geo = dict(units=1 + i % 3, in_dim=1 + i % 2, use_bias=True, impl=1 + (i % 2 if cls != "simplernn" else 0),
                  reset_after=(cls == "gru" and i % 2 == 0))
       add(cls, geo, rnn_q(rng, cls, i, i, False), [dict(batch=b, steps=t)], "rank")
+
+  # ================================================================= format (appended: keeps the grid above unchanged)
+  # QSeparableConv1D with an AUTO-scaled depthwise quantizer and a kernel whose positions differ in magnitude
+  # (`skew_kernel`), under the three orders of the channels_first switch: a layer that hands anything but the
+  # STORED kernel to the quantizer (the kernel expanded to 4-D, defect repaired in /repo 5ab82ec) reduces the
+  # scale over other axes and gets other values — deterministically, not only for lucky weights
+  i = 0
+  for oi, fm in enumerate(ORDERS):
+    for dfa in ("default", "channels_first", "channels_last"):
+      i += 1
+      pad, k = ("valid", "same", "causal")[i % 3], 2 + i % 2
+      geo = dict(filters=1 + i % 3, kernel=k, strides=1, padding=pad, dilation=1 + (i % 4 == 0), use_bias=(i % 2 == 0),
+                 cin=1 + i % 2, depth_multiplier=1 + (i // 2) % 2, skew_kernel=True)
+      if dfa != "default":
+        geo["data_format"] = dfa
+      ls = conv1d_lengths(pad, k, geo["dilation"], i)
+      add("sepconv1d", geo, qsel(rng, SLOTS["sepconv1d"], i, auto=True),
+          [dict(length=ls[0], batch=2), dict(length=ls[1], batch=1)], "format", fmts=fm)
   return G
 
 
@@ -795,6 +815,13 @@ def run_feedforward(G):
       for w in ql.weights:
         shp = [int(v) for v in w.shape]
         W_.append(dy(rng, shp, 16, -20, 20) if len(shp) > 1 or cls == "scaleshift" else dy(rng, shp, 16, -24, 24))
+      if g.get("skew_kernel") and W_:
+        # kernel position 0 small (|k| <= 2, one entry exactly 2/16), the other positions large (16 <= |k| <= 20);
+        # still k/16, so every sum stays exact
+        k0 = W_[0]
+        k0[0] = dy(rng, k0[0].shape, 16, -2, 2)
+        k0[0].flat[0] = np.float32(2.0 / 16.0)
+        k0[1:] = dy(rng, k0[1:].shape, 16, 16, 20) * np.where(rng.random(k0[1:].shape) < 0.5, -1, 1).astype(np.float32)
       if W_:
         ql.set_weights(W_)
       return W_
@@ -917,10 +944,9 @@ def run_feedforward(G):
         if i >= len(W):
           quant.append(None if qs is None else qspec(qs, [], t))
           continue
-        args = [W[i]]
-        if cls == "sepconv1d" and i < 2:
-          args = [W[i][None, ...], W[i]]      # the layer quantizes the kernel expanded to 4-D
-        quant.append(qspec(qs, args, t))
+        # every layer quantizes its weights AS STORED (QSeparableConv1D too, since /repo 5ab82ec): a table
+        # quantizer is given at the stored tensor only, so a layer that quantizes anything else is rejected
+        quant.append(qspec(qs, [W[i]], t))
       line = {"op": "layer", "cls": cls, "cfg": cfg_of(G), "xs": [tj(xs[pos]) for pos in members],
               "weights": [tj(w) for w in W], "quant": quant, "actv": [qspec(q.get("act"))]}
       if cls == "conv2d" and G.mask is not None:
@@ -1064,9 +1090,10 @@ def run_recurrent(G):
 # ----------------------------------------------------------------------------- recorded sites
 
 def site_of(c):
-  """label of the four sites repaired in /repo (32aca3c, 0736682, d2aee32, c93cc1b) — part of the generated
-  grid, a regression there is reported under its own key — and of the recorded finding of the unchanged code
-  (QConv1D causal x channels_first)"""
+  """label of the sites of the NINE defects repaired in /repo (32aca3c, 0736682, d2aee32, c93cc1b; fix round:
+  22ba660 is per object — `default-data-format` —, 035b3d2, c094292, 8b14f4d, 5ab82ec): all part of the generated
+  grid and judged like every other case (bit-for-bit ties, `runs`); a regression there is a VIOLATION reported
+  under its own key"""
   g = c.geo
   if c.cls == "globalavgpool2d" and c.group.mode == "dynamic" and c.q["average"] is not None:
     return "dynamic-spatial-dims"
@@ -1076,8 +1103,8 @@ def site_of(c):
     return "causal-channels-first"
   if c.cls == "sepconv1d" and c.group.fmts[1] == "channels_first" and \
       any(is_auto(c.q[s_], True) for s_ in ("depthwise", "pointwise")):
-    # the kernel is quantized AFTER expand_dims(., 0); under the channels_first switch the auto scale of the 4-D
-    # tensor is taken over other axes than that of the stored 3-D kernel
+    # before 5ab82ec the kernel was quantized AFTER expand_dims(., 0); under the channels_first switch the auto
+    # scale of the 4-D tensor is taken over other axes than that of the stored 3-D kernel
     return "expanded-kernel-auto-scale"
   if c.cls == "sepconv1d" and g["padding"] == "causal":
     return "causal-padding-call"
@@ -1088,14 +1115,6 @@ def site_of(c):
   if c.cls == "gru" and g["reset_after"] and g["use_bias"]:
     return "reset-after-unstack"
   return None
-
-
-RECORDED_SITES = ("causal-channels-first", "expanded-kernel-auto-scale", "dynamic-spatial-dims", "po2-average-in-graph")
-# symbolic shapes and graph-mode dtypes are outside the Lean model (its tensors are concrete rationals): these sites
-# are mirrored by harness rules — "the pool area of unknown dims is None * None" -> TypeError while the functional
-# model is being built; "1.0 / np.prod(pool_size) is a numpy float64, quantized_po2 mixes it with float32 constants in
-# tf.where" -> TypeError in graph mode (eager mode converts)
-HARNESS_MIRRORED = {"dynamic-spatial-dims": "TypeError", "po2-average-in-graph": "TypeError"}
 
 
 def same(a, b):
@@ -1235,20 +1254,16 @@ def run(run: core.Run, tier: str):
         model = [(shp, data)] if m_ok else None
         if not o_line.get("build_free", False):
           run.disagree("build-free", c.label, "-", "the layer term mentions a build-time node")
-      if not o.get("dropin", False) and m_ok and site not in RECORDED_SITES:
-        # the instance of the drop-in theorem evaluated by the driver itself must hold
-        if not (c.cls == "sepconv1d" and AUTO in c.q.values()):
-          run.disagree("theorem-instance", c.label, "-", "model's own drop-in equation is false on this instance")
+      if not o.get("dropin", False) and m_ok:
+        # the instance of the drop-in theorem evaluated by the driver itself must hold (every class, no exception)
+        run.disagree("theorem-instance", c.label, "-", "model's own drop-in equation is false on this instance")
       # ------------------------------------------------------------ crashes
       if c.err is not None:
         run.count("impl_raises_" + c.err[0])
-        # a recorded site is mirrored when the model rejects the same instance (shape error in the term)
-        mir = site in RECORDED_SITES and not m_ok
-        if site in HARNESS_MIRRORED:
-          mir = c.err[0] == HARNESS_MIRRORED[site]
-        elif site in RECORDED_SITES and m_ok:
+        # no generated call may raise: the stock layer accepts every one of them (it is run on each)
+        if m_ok:
           run.disagree("model-accepts", c.label, "raises " + c.err[0], "model evaluates the term")
-        run.violate("runs", dict(key0, error=c.err[0]), {"case": c.label, "error": list(c.err)}, mirrored=mir)
+        run.violate("runs", dict(key0, error=c.err[0]), {"case": c.label, "error": list(c.err)}, mirrored=False)
         continue
       if not m_ok:
         run.disagree("model-rejects", c.label, "runs", "model shape error")
